@@ -2,7 +2,7 @@
    outstanding keep-alive request). Statements are over arbitrary event traces: the tick instants are
    not even assumed periodic for C14_no_false_close, so every (interval, timeout) pair is covered. *)
 From Coq Require Import List NArith ZArith Bool Lia.
-From AnyTLS Require Import Generated GeneratedFacts Pool Heartbeat.
+From AnyTLS Require Import Generated FactsTimed Pool Heartbeat.
 Import ListNotations.
 Open Scope Z_scope.
 
